@@ -13,7 +13,7 @@ SPEC = {
              '(b) structured arithmetic lines (number literals incl. grouped / fractional / signed, operators, parentheses, optional comment, '
              'optional multi-byte variable name left of "=", optional multi-byte words before / between / after) for which the character span '
              'of every number literal, operator and the comment is known: a token of kind Number / Operator / Comment with exactly that span '
-             'must be reported. non-trivial = a line with at least one token; distinct = distinct (language, line)'),
+             'must be reported; based literals are number literals; a few lines are longer than 65 536 characters. non-trivial = a line with at least one token; distinct = distinct (language, line)'),
     'min_nontrivial': 3000,
     'budget_s': {'quick': 35, 'thorough': 360},
     'assumptions': ['magnitude suffixes are not used in the structured lines (whether "5k" is one literal or a number plus a symbol is not fixed by the statement)'],
@@ -51,6 +51,10 @@ def structured(rng):
         if rng.random() < 0.15:
             pieces.append((rng.choice(WORDS), None))
         if k == 'num':
+            if t[0].isdigit() and rng.random() < 0.12:
+                # a based literal is a number literal too: its token covers the prefix and the digits
+                n = rng.randint(0, 2 ** rng.choice([4, 8, 16, 40]))
+                t = rng.choice(['0x%X' % n, '0X%x' % n, '0o%o' % n, '0b' + bin(n)[2:], '0B' + bin(n)[2:]])
             pieces.append((t, 'Number'))
         else:
             pieces.append((t, 'Operator'))
@@ -94,7 +98,25 @@ def run_shard(ctx):
         for _ in range(150):
             r = rng.random()
             lang = rng.choice(['en', 'en', 'tr'])
-            if r < 0.45:
+            if r < 0.002:
+                # a line longer than 65 536 characters (positions that do not fit 16 bits): a long comment behind, or a long word in front of,
+                # a structured line
+                line, spans = structured(rng)
+                spans = [sp for sp in spans if sp[2] != 'Comment']
+                line = line.split('#')[0].rstrip()
+                filler = rng.choice(['x', 'ab', 'ç', 'q r ']) * rng.choice([66000, 70000])
+                filler = filler[:rng.choice([65537, 65600, 70007])].rstrip()
+                if rng.random() < 0.5:
+                    start = len(line) + 1
+                    line = line + ' #' + filler
+                    spans.append((start, len(line), 'Comment'))
+                else:
+                    filler = filler.replace(' ', 'z')
+                    off = len(filler) + 1
+                    line = filler + ' ' + line
+                    spans = [(a + off, b + off, k) for a, b, k in spans]
+                meta.append((lang, line, 'structured-very-long', spans))
+            elif r < 0.45:
                 line, spans = structured(rng)
                 meta.append((lang, line, 'structured', spans))
             elif r < 0.75:
@@ -142,5 +164,5 @@ def run_shard(ctx):
                 if res.cases % 499 == 0:
                     res.sample({'lang': lang, 'line': line, 'tokens': ui})
                 continue
-            res.violation(sig, '%r (%s): %s' % (line, lang, why),
+            res.violation(sig + (':very-long' if len(line) > 65000 else ''), '%r (%s): %s' % (line if len(line) < 400 else line[:150] + ' ... ' + line[-150:], lang, why[:600]),
                           {'config': cfg, 'lang': lang, 'text': line, 'tokens': ui, 'ops': [{'op': 'opts', 'ui': True}] + gh.config_ops(cfg) + [{'op': 'execute', 'lang': lang, 'text': line}]})
